@@ -3,14 +3,14 @@ import RedunModel.Model.Migrate
 open RedunModel RedunModel.Migrate
 
 /- request:  mig s<start revision id> (tbl s<name> (cols s<col>*) (row <val>*)*)*
-     <val> ::= N | i<int> | s<hex utf-8 text> | b<hex blob> | (T s<whole seconds part> s<fraction part>)
+     <val> ::= N | i<int> | s<hex utf-8 text> | b<hex blob> | (T i<whole seconds since the epoch> s<fraction part as written>)
    reply:    ok (tbl ...)*   in the same syntax (tables in model order, rows in model order)
              !error s<message> -/
 
 def valOf : Sexp → Option Val
   | .atom "N" => some .null
   | .list [.atom "T", .atom w, .atom f] => do
-    let w ← strOfAtom w
+    let w ← intOfAtom w
     let f ← strOfAtom f
     pure (.ts w f)
   | .atom a =>
@@ -62,7 +62,7 @@ def showVal : Val → String
   | .int i => atomOfInt i
   | .text s => atomOfStr s
   | .blob h => "b" ++ h
-  | .ts w f => "(T " ++ atomOfStr w ++ " " ++ atomOfStr f ++ ")"
+  | .ts w f => "(T " ++ atomOfInt w ++ " " ++ atomOfStr f ++ ")"
 
 def showTable (t : Table) : String :=
   let rows := t.rows.map fun r => "(row " ++ " ".intercalate (t.cols.map fun c => showVal (getD c r)) ++ ")"
